@@ -240,9 +240,11 @@ def _callee_body(prog, callee, skip_self, call, counter, self_expr):
     if not _return_simple(body):
         return None
     a = node.args
-    if a.vararg or a.kwarg or a.kwonlyargs or any(k.arg is None for k in call.keywords):
+    if a.vararg or a.kwarg or any(k.arg is None for k in call.keywords):
         return None
     star = [x for x in call.args if isinstance(x, ast.Starred)]
+    if star and a.kwonlyargs:
+        return None
     if star and not (len(star) == 1 and call.args[-1] is star[0] and isinstance(star[0].value, (ast.Name, ast.Attribute)) and dotted(star[0].value)):
         return None
     params = [x.arg for x in a.posonlyargs + a.args]
@@ -273,9 +275,15 @@ def _callee_body(prog, callee, skip_self, call, counter, self_expr):
             mapping[params[0]] = self_expr
         params = params[1:]
     defaults = dict(zip([x.arg for x in (a.posonlyargs + a.args)][-len(a.defaults):], a.defaults)) if a.defaults else {}
+    for ko_, kd_ in zip(a.kwonlyargs, a.kw_defaults):   # keyword-only parameters: given by name, or defaulted
+        if kd_ is not None:
+            defaults[ko_.arg] = kd_
+    if len(call.args) > len(params):
+        return None
     given = dict(zip(params, call.args))
     for k in call.keywords:
         given[k.arg] = k.value
+    params = params + [ko_.arg for ko_ in a.kwonlyargs]
     for p in params:
         v = given.get(p, defaults.get(p))
         if v is None:
